@@ -99,6 +99,59 @@ def searchStep (cp : CP α) (st : Array (Static α)) (s : St α) (ij : Nat × Na
 /-- `identify_non_covalently_coupled_groups(conformation, verbose=False)` -/
 def identify (cp : CP α) (st : Array (Static α)) (gs : Array (GRec α)) : St α :=
   (pairs st).foldl (searchStep cp st) ⟨gs, Array.replicate gs.size none, Array.replicate gs.size []⟩
+
+/-! ### the display mode (`-d`): `print_out_swaps` leaves the interactions of every coupled system swapped -/
+/-- `is_coupled_protonation_state_probability(..., return_on_fail=False)`: no gate returns early - the intrinsic pKa values are
+    memoised, the pair is swapped and swapped back -/
+def probeShow (cp : CP α) (s : St α) (i j : Nat) : St α :=
+  match s.gs[i]?, s.gs[j]? with
+  | some g1, some g2 =>
+    let i1 := match s.intr.getD i none with | some v => v | none => intrinsic cp g1
+    let i2 := match s.intr.getD j none with | some v => v | none => intrinsic cp g2
+    let sw := swap cp.fixed g1 g2
+    let b := swap cp.fixed sw.1 sw.2
+    { s with gs := (s.gs.setIfInBounds i b.1).setIfInBounds j b.2, intr := (s.intr.setIfInBounds i (some i1)).setIfInBounds j (some i2) }
+  | _, _ => s
+
+/-- `swap_interactions([group i], [group j])` on the table -/
+def swapIn (cp : CP α) (s : St α) (ij : Nat × Nat) : St α :=
+  match s.gs[ij.1]?, s.gs[ij.2]? with
+  | some g1, some g2 => let sw := swap cp.fixed g1 g2; { s with gs := (s.gs.setIfInBounds ij.1 sw.1).setIfInBounds ij.2 sw.2 }
+  | _, _ => s
+
+/-- `get_a_coupled_system_of_groups`: insertion-ordered depth-first closure over the coupling lists; `fuel` bounds the depth -/
+def closure (coupled : Array (List Nat)) : Nat → List Nat → Nat → List Nat
+  | 0, acc, _ => acc
+  | fuel+1, acc, g =>
+    (coupled.getD g []).foldl (fun acc h => if acc.contains h then acc else closure coupled fuel acc h) (acc ++ [g])
+
+/-- `get_coupled_systems(groups with a coupling list, get_non_covalently_coupled_groups)` -/
+def systems (coupled : Array (List Nat)) : List (List Nat) :=
+  let start := (List.range coupled.size).filter fun g => !(coupled.getD g []).isEmpty
+  (start.foldl (fun (acc : List (List Nat) × List Nat) g =>
+    if acc.2.contains g then acc
+    else
+      let sys := closure coupled (coupled.size + 1) [] g
+      (acc.1 ++ [sys], acc.2 ++ sys)) ([], [])).1
+
+/-- `itertools.combinations(system, 2)` -/
+def pairs2 : List Nat → List (Nat × Nat)
+  | [] => []
+  | a :: rest => rest.map (fun b => (a, b)) ++ pairs2 rest
+
+/-- `propka.lib.generate_combinations(interactions)` -/
+def combinations (inter : List (Nat × Nat)) : List (List (Nat × Nat)) :=
+  (inter.foldl (fun (res : List (List (Nat × Nat))) x => res.flatMap fun c => [c ++ [x], c]) [[]]).filter fun c => !c.isEmpty
+
+/-- `print_system`: every interaction of the system is probed without gates, then every combination of interactions is swapped,
+    one after the other, and nothing is swapped back -/
+def printSystem (cp : CP α) (s : St α) (sys : List Nat) : St α :=
+  let inter := pairs2 sys
+  let s1 := inter.foldl (fun s ij => probeShow cp s ij.1 ij.2) s
+  (combinations inter).foldl (fun s combo => combo.foldl (swapIn cp) s) s1
+
+/-- `print_out_swaps(conformation)` -/
+def display (cp : CP α) (s : St α) : St α := (systems s.coupled).foldl (printSystem cp) s
 end
 
 end Propka.CoupleSearch
